@@ -126,6 +126,13 @@ def step (line : String) : String :=
         | none => "invalid"
         | some l => hx l.sub ++ ":" ++ hx l.pkg ++ ":" ++ hx l.name
     | _, _, _ => "bad-op"
+  | ["e2e", kind, name] =>
+    -- end-to-end runs of the real binary: oracle only, the model has no say
+    match unhx name with
+    | some n =>
+      if (kind = "file" || kind = "multi" || kind = "nondep" || kind = "typo") && n ≠ [] &&
+         !(n.any fun c => c = '"' || c = '\\' || c = '\n' || c = '/') && n.head? ≠ some '.' then "-" else "bad-op"
+    | none => "bad-op"
   | ["sw", text] =>
     match unhx text with
     | some text =>
